@@ -11,6 +11,7 @@ import os
 import struct
 import subprocess
 import sys
+import warnings
 from zoneinfo import ZoneInfo
 
 import numpy as np
@@ -244,6 +245,75 @@ def reader_case(ctx, name):
         ctx.fail(f"{name}: timestart <= time <= timeend violated", dict(op="reader", reader=name))
 
 
+def same_path_case(ctx, rng):
+    """"…none of them changes with the host's TZ setting, locale or working directory": several campaign folders that carry the
+    SAME relative name and the SAME file names (Sensortran names hold only the time of day) are read one after the other in one
+    process through the relative path, after a chdir; then one folder is read again after its files were replaced.  Every time
+    coordinate must be the instant stored in the files that were named — equal to the read through the absolute path, and moved by
+    exactly the difference of the stored stamps between campaigns."""
+    import shutil
+    import datetime as dt
+    from dtscalibration.io.sensortran import read_sensortran_files
+    r = np.random.default_rng(rng.randrange(2**31))
+    base = core.VERIF / "harness" / ".work" / f"c12cwd-{os.getpid()}"
+    shutil.rmtree(base, ignore_errors=True)
+    n, npts = rng.randint(2, 4), rng.randint(4, 12)
+    t0 = dt.datetime(2021, rng.randint(1, 12), rng.randint(1, 28), rng.randint(1, 20), rng.randint(0, 59), rng.randint(0, 59))
+    shifts = [0, rng.randint(1, 400) * 86400 + rng.randint(-3000, 3000), -rng.randint(1, 300) * 86400]
+    x = np.arange(npts, dtype=np.float32) * np.float32(0.5)
+
+    def records(shift):
+        recs = []
+        for k in range(n):
+            ts = t0 + dt.timedelta(seconds=90 * k)
+            recs.append(dict(epoch=int((ts - dt.datetime(1970, 1, 1)).total_seconds()) + shift, name=ts.strftime("%H_%M_%S"), x=x,
+                             tmp=r.normal(20, 5, npts).astype(np.float32), st=r.integers(1, 10**6, npts + 3).astype(np.int32),
+                             ast=r.integers(1, 10**6, npts + 3).astype(np.int32), ref_temp=290.0))
+        return recs
+
+    case = dict(sub="same relative path, other working directory / replaced files", reader="sensortran", shifts=shifts, nfiles=n)
+    old = os.getcwd()
+    coords = ("time", "timestart", "timeend")
+    try:
+        got = []
+        for k, sh in enumerate(shifts):
+            d = base / f"campaign{k}" / "measurements"
+            d.mkdir(parents=True)
+            vendors.sensortran_write(d, records(sh), list(range(n)))
+        with warnings.catch_warnings():
+            warnings.simplefilter("ignore")
+            for k, sh in enumerate(shifts):
+                os.chdir(base / f"campaign{k}")
+                rel = read_sensortran_files(directory="measurements", timezone_netcdf="UTC", silent=True)
+                os.chdir(old)
+                ab = read_sensortran_files(directory=str(base / f"campaign{k}" / "measurements"), timezone_netcdf="UTC", silent=True)
+                for cname in coords:
+                    if not np.array_equal(rel[cname].values, ab[cname].values):
+                        ctx.fail(f"sensortran: `{cname}` read through the relative path from another working directory differs from the "
+                                 f"read through the absolute path (campaign {k})", case)
+                got.append({cname: rel[cname].values.astype("datetime64[s]").astype("int64") for cname in coords})
+            for k, sh in enumerate(shifts[1:], 1):
+                for cname in coords:
+                    if not np.array_equal(got[k][cname] - got[0][cname], np.full(n, sh)):
+                        ctx.fail(f"sensortran: `{cname}` of campaign {k} is not moved by the difference of the stored stamps ({sh} s) "
+                                 f"against campaign 0: {(got[k][cname] - got[0][cname]).tolist()}", case)
+            # the files of one folder are replaced (same names, later stamps) and the folder is read again
+            d0 = base / "campaign0" / "measurements"
+            vendors.sensortran_write(d0, records(7 * 86400), list(range(n)))
+            again = read_sensortran_files(directory=str(d0), timezone_netcdf="UTC", silent=True)
+            for cname in coords:
+                a = again[cname].values.astype("datetime64[s]").astype("int64")
+                if not np.array_equal(a - got[0][cname], np.full(n, 7 * 86400)):
+                    ctx.fail(f"sensortran: `{cname}` read after the files were replaced is not the stamp stored in the new files", case)
+    except Exception as e:  # noqa: BLE001
+        ctx.fail(f"sensortran: reading campaign folders raised {type(e).__name__}: {str(e)[:200]}", case)
+    finally:
+        os.chdir(old)
+        shutil.rmtree(base, ignore_errors=True)
+    ctx.case(sig=["same-path", n], nontrivial=True, sample=case)
+    ctx.count("same relative path / replaced files")
+
+
 def synthesised_cases(ctx):
     """(c) file sets synthesised from the vendor templates with per-channel acquisition times (forward != backward): the readers
     must hand the acquisition times recorded for the measurement's own channels to coords_time"""
@@ -259,6 +329,8 @@ def run(ctx):
     for _ in range(300 if ctx.quick else 5000):
         direct_case(ctx, ctx.rng)
     synthesised_cases(ctx)
+    for _ in range(2 if ctx.quick else 10):
+        same_path_case(ctx, ctx.rng)
     from concurrent.futures import ThreadPoolExecutor
     with ThreadPoolExecutor(5) as ex:
         list(ex.map(lambda n: reader_case(ctx, n), list(READERS)))
